@@ -116,7 +116,19 @@ PROPS = {
                 explanation="repair_dna on clean strands and candidate-list shape.",
                 technique="loop invariant of the scan loop + check filter on both exits + bounded run-time contract checking"),
     "C10": dict(title="Repair always returns", level="other", bounded=["C10"], design="8/C10",
-                explanation="Termination / exception freedom of repair_dna.",
+                proof=["dsw.spiderweb.repair_dna#scan", "dsw.operation.dna_to_number#int", "lemma.pv_bound", "lemma.ipow_mono"],
+                explanation="PROVED (partial contract on the real repair_dna, ending with its scan loop): for every A/C/G/T strand at least one window long, "
+                            "every coding graph and start vertex, the scan loop TERMINATES - the variant len(strand) - location decreases on every "
+                            "feasible path through the body, including the path 'nucleotide is not an arc and the current segment is empty' (a test "
+                            "on the opaque segment list is treated as non-deterministic) - and its modelled operations raise nothing (strand index, "
+                            "accessor row and column, index_queue store, the precondition of dna_to_number; the resynchronisation vertex is < 4^k).  "
+                            "The three bookkeeping lists (lists of strings / arrays) are declared opaque: statements that only update them are skipped.  "
+                            "BOUNDED (never counted as proved): everything after the scan loop (candidate generation, product, the shape of the result), "
+                            "exceptions of the skipped statements, the polynomial look-up bound.",
+                demoted=["loops 2..7 and result shape - bounded B2 (all ACGT strings of length k..6/8 on two graphs + seeded strands)",
+                         "exception freedom of statements updating the opaque lists - bounded B2"],
+                claim="Mixed: termination of the scan loop deductive (this is the obligation the pinned tree failed, D2); the rest bounded.",
+                note="Trusted: numpy ones/where/indexing contracts.",
                 technique="loop variant of the scan loop (progress on every path) + bounded exhaustive short strands"),
     "C11": dict(title="Vertex discovery and the valid graph mirror the filter", level="proof", bounded=["C11"], design="8/C11",
                 proof=["dsw.spiderweb.find_vertices", "dsw.spiderweb.connect_valid_graph#mask", "dsw.spiderweb.connect_valid_graph#none",
